@@ -56,6 +56,7 @@ type Path struct {
 	NAssertsTriv int
 	spawned      []*Job
 	allocOn      bool
+	naux         int
 	facts        map[int]*Term // term id -> constant implied by the path condition
 	simpMemo     map[int]*Term
 }
@@ -154,6 +155,7 @@ type Run struct {
 	Reached   map[string]int
 	perHarnessPaths map[string]int
 	Start     time.Time
+	interps   []*Interp
 	Deadline  time.Time
 	TimedOut  bool
 }
@@ -833,6 +835,9 @@ func (ip *Interp) findHarness(cfg *HarnessConfig) *ssa.Function {
 // Worker runs jobs until the queue drains.
 func (ip *Interp) Worker() {
 	r := ip.run
+	r.mu.Lock()
+	r.interps = append(r.interps, ip)
+	r.mu.Unlock()
 	for {
 		j := r.pop()
 		if j == nil {
@@ -868,4 +873,19 @@ func (r *Run) Progress() string {
 	return fmt.Sprintf("[%.0fs] paths=%d completed=%d infeasible=%d oom=%d budget=%d panics=%d queue=%d active=%d viol=%d steps=%d",
 		time.Since(r.Start).Seconds(), r.Stats.Paths, r.Stats.Completed, r.Stats.Infeasible, r.Stats.OOM, r.Stats.BudgetEnds, r.Stats.Panics,
 		len(r.queue), r.active, len(r.Violations), r.Stats.Steps)
+}
+
+// Debug describes what every worker is doing (racy; diagnostics only).
+func (r *Run) Debug() string {
+	r.mu.Lock()
+	defer r.mu.Unlock()
+	var sb strings.Builder
+	for i, ip := range r.interps {
+		p := ip.path
+		if p == nil {
+			continue
+		}
+		fmt.Fprintf(&sb, "  w%d: %s%v steps=%d pc=%d insolver=%v at %s\n", i, p.Job.Harness, p.Job.Params, p.Steps, len(p.PC), ip.sv.busy, ip.Where())
+	}
+	return sb.String()
 }
